@@ -50,8 +50,9 @@ type spec struct {
 		Pkg      string   `json:"pkg"`
 		Names    []string `json:"names"`
 		Closures []struct { // function literals assigned to a local variable: `var <Var> = func(...) {...}` inside <Func>
-			Func string `json:"func"`
-			Var  string `json:"var"`
+			Func  string `json:"func"`
+			Var   string `json:"var"`
+			ArgOf string `json:"arg_of"` // instead of Var: the literal is an argument of a call of this function
 		} `json:"closures"`
 	} `json:"roots"`
 }
@@ -228,7 +229,7 @@ func main() {
 		}
 		t.index(p)
 		for _, c := range r.Closures {
-			t.addClosure(p, c.Func, c.Var)
+			t.addClosure(p, c.Func, c.Var, c.ArgOf)
 		}
 	}
 	for _, f := range roots {
@@ -314,14 +315,14 @@ func main() {
 
 func (t *tr) isExtern(f *types.Func) bool {
 	for _, e := range t.sp.Extern {
-		if f.Pkg() != nil && f.Pkg().Path() == t.sp.Module+"/"+e {
+		if f.Pkg() != nil && (f.Pkg().Path() == t.sp.Module+"/"+e || (e == "." && f.Pkg().Path() == t.sp.Module)) {
 			return true
 		}
 	}
 	return false
 }
 
-func (t *tr) addClosure(p *pkgInfo, fn, vn string) {
+func (t *tr) addClosure(p *pkgInfo, fn, vn, argOf string) {
 	outer := t.lookup(p, fn)
 	if outer == nil {
 		t.fail(nil, "closure: function %s not found", fn)
@@ -340,9 +341,26 @@ func (t *tr) addClosure(p *pkgInfo, fn, vn string) {
 			}
 		case *ast.AssignStmt:
 			for i, l := range x.Lhs {
-				if id, ok := l.(*ast.Ident); ok && id.Name == vn && i < len(x.Rhs) {
+				if id, ok := l.(*ast.Ident); ok && vn != "" && id.Name == vn && i < len(x.Rhs) {
 					if fl, ok := x.Rhs[i].(*ast.FuncLit); ok {
 						lit = fl
+					}
+				}
+			}
+		case *ast.CallExpr:
+			if argOf != "" {
+				callee := ""
+				switch f := x.Fun.(type) {
+				case *ast.Ident:
+					callee = f.Name
+				case *ast.SelectorExpr:
+					callee = f.Sel.Name
+				}
+				if callee == argOf {
+					for _, a := range x.Args {
+						if fl, ok := a.(*ast.FuncLit); ok {
+							lit = fl
+						}
 					}
 				}
 			}
@@ -350,7 +368,10 @@ func (t *tr) addClosure(p *pkgInfo, fn, vn string) {
 		return true
 	})
 	if lit == nil {
-		t.fail(fd, "closure: no function literal bound to %s in %s", vn, fn)
+		t.fail(fd, "closure: no function literal bound to %s%s in %s", vn, argOf, fn)
+	}
+	if vn == "" {
+		vn = "arg_" + argOf
 	}
 	c := &closure{p: p, outer: outer, varName: vn, lit: lit}
 	seen := map[types.Object]bool{}
@@ -970,7 +991,7 @@ func simpleType(ty types.Type) bool {
 
 func pkgShort(p *types.Package) string { return p.Name() }
 
-func (t *tr) structName(n *types.Named) string { return pkgShort(n.Obj().Pkg()) + "." + n.Obj().Name() }
+func (t *tr) structName(n *types.Named) string { return pkgShort(n.Obj().Pkg()) + "." + name(n.Obj().Name()) }
 
 func (t *tr) funcName(f *types.Func) string {
 	sig := f.Type().(*types.Signature)
